@@ -3,7 +3,7 @@
 Decided: the acquisition-guard obligations of the drain lock on every dq_state transition, the exactness of the
 barrier-sync fast path, strict head-pop discipline of the serial drain, and that sync waiters are never run by the
 drainer. The mutual-exclusion theorem itself (which follows from these under the protocol) is not re-proved."""
-from dqsa import trans, paths
+from dqsa import trans, paths, build
 from .common import *
 
 UNITS = ["queue", "source", "apply"]
@@ -251,6 +251,84 @@ def rule_OD6(rep, prog, q):
                     sample={"wakeups": len(wk)})
 
 
+def rule_TR7(rep, prog, q):
+    rid = rep.rule("C02-TR7", "only the thread that has just TAKEN the barrier lock completes a barrier: where resume / the waiter push paths go on to "
+                   "barrier-complete the queue (dx_wakeup with BARRIER_COMPLETE, _dispatch_lane_barrier_complete, _dispatch_workloop_barrier_complete) they have "
+                   "established (old_state ^ new_state) & IN_BARRIER - the bit changed in their own transition - not merely that the new state is locked / in a "
+                   "barrier (which is also true when ANOTHER thread, or this thread in an outer frame, holds it)", floor=3)
+    BC = consts.get(["DISPATCH_WAKEUP_BARRIER_COMPLETE"], srcdir=q.srcdir)["DISPATCH_WAKEUP_BARRIER_COMPLETE"]
+    n = 0
+    for name in ("_dispatch_lane_resume", "_dispatch_lane_push_waiter", "_dispatch_workloop_push_waiter"):
+        fn = prog.fn(name)
+        rep.saw(fn)
+        xt = []
+        for t in fn.all_insts():
+            if t.op == "icmp" and t.d["pred"] in ("eq", "ne") and t.ops[1][0] == "c" and t.ops[1][1] == 0:
+                a = fn.inst(t.ops[0])
+                if a is not None and a.op == "and" and a.ops[1][0] == "c" and a.ops[1][1] == q.IN_BARRIER:
+                    x = fn.inst(a.ops[0])
+                    if x is not None and x.op == "xor":
+                        xt.append(t)
+        direct = calls_named(fn, ("_dispatch_lane_barrier_complete", "_dispatch_workloop_barrier_complete"))
+        wk = icalls_slot(prog, fn, "dq_wakeup") + calls_named(fn, ("_dispatch_lane_wakeup", "_dispatch_queue_wakeup", "_dispatch_workloop_wakeup"))
+        cas = [i for i in fn.all_insts() if i.op == "cmpxchg" and (prog.fields(i) & DQ_STATE)]
+        if not cas or not (direct or wk):
+            rep.unknown(rid, "anchor vanished in %s (dq_state compare-exchanges=%d, completions=%d)" % (name, len(cas), len(direct) + len(wk)))
+            continue
+        claims = 0
+        for c0 in cas:
+            for kind, inst, cx, path in paths.walk(fn, c0, lambda i: i in direct or i in wk):
+                if kind != "hit":
+                    continue
+                if inst in wk:
+                    fl = cx.resolve(inst.ops[2])
+                    fv = fl[1] if fl[0] == "c" else None
+                    if fv is None:
+                        bv = ceval(fn, fl, {})
+                        fv = bv
+                    if fv is None or not (fv & BC):
+                        continue
+                claims += 1
+                ok = any(cx.truth.get(t.id) == (t.d["pred"] == "ne") for t in xt)
+                rep.require(rid, ok, inst.loc, name, "barrier-complete-without-having-taken-the-lock:%s" % name,
+                            "%s goes on to barrier-complete the queue (%s) on a path that did not establish (old_state ^ new_state) & IN_BARRIER (path %s): with a test "
+                            "on the new state alone, a thread that resumes a queue it is running on (or pushes a waiter while another thread holds the barrier) unlocks "
+                            "a queue that is still in use - the next item starts while the current one is running"
+                            % (name, inst.callee or "dx_wakeup(BARRIER_COMPLETE)", path), sample={"fn": name, "at": inst.loc})
+        if claims:
+            n += 1
+    if n < 3:
+        rep.unknown(rid, "expected barrier-completion claims in resume and both waiter pushes, recognised %d" % n)
+
+
+def rule_TB8(rep, q):
+    import re, os
+    rid = rep.rule("C02-TB8", "flag spaces: the wake-up flags (DISPATCH_WAKEUP_*) and the continuation flags (DC_FLAG_*) are pairwise distinct single bits - two names "
+                   "sharing a bit make one request mean the other (a dispatch_block_wait wake-up taken for BARRIER_COMPLETE unlocks a queue its caller does not own)",
+                   floor=12)
+    src = q.srcdir or os.path.join(build.REPO if hasattr(build, "REPO") else "/repo", "src")
+    names = []
+    for fname, pat in (("object_internal.h", r"\b(DISPATCH_WAKEUP_[A-Z0-9_]+)\s*="), ("queue_internal.h", r"#define\s+(DC_FLAG_[A-Z0-9_]+)\s+0x")):
+        try:
+            txt = open(os.path.join(src, fname)).read()
+        except OSError:
+            rep.unknown(rid, "anchor vanished: %s not readable" % fname)
+            continue
+        names += [m for m in re.findall(pat, txt) if "MASK" not in m]
+    names = sorted(set(names))
+    if len(names) < 12:
+        rep.unknown(rid, "fewer than 12 flag names found (%d)" % len(names))
+        return
+    vals = consts.get(names, srcdir=q.srcdir)
+    for space in ("DISPATCH_WAKEUP_", "DC_FLAG_"):
+        mine = {n_: vals[n_] for n_ in names if n_.startswith(space)}
+        for n_, v in sorted(mine.items()):
+            clash = sorted(m for m, w in mine.items() if m != n_ and (w & v))
+            rep.require(rid, v != 0 and (v & (v - 1)) == 0 and not clash, "src/%s" % ("object_internal.h" if space.startswith("DISPATCH") else "queue_internal.h"), n_,
+                        "flag-collision:%s" % n_, "%s = %#x %s" % (n_, v, ("shares a bit with %s" % ", ".join(clash)) if clash else "is not a single bit"),
+                        sample={"flag": n_, "value": hex(v)})
+
+
 def rule_barrier_flag(rep, prog, q):
     """sync-style submissions to a width-1 queue always take the barrier path"""
     rid = rep.rule("C02-SB5", "the dc_flags reaching _dispatch_async_and_wait_recurse carry DC_FLAG_BARRIER whenever the queue's dq_width is 1 "
@@ -291,6 +369,10 @@ def run(rep, tier="quick", srcdir=None, only=None):
         rule_barrier_flag(rep, prog, q)
     if want("C02-OD6"):
         rule_OD6(rep, prog, q)
+    if want("C02-TR7"):
+        rule_TR7(rep, prog, q)
+    if want("C02-TB8"):
+        rule_TB8(rep, q)
     if want("C05-WR3"):
         # a parked dispatch_sync waiter must only be released by the real lock hand-off (shared with C05)
         from . import C05
